@@ -251,10 +251,14 @@ theorem publish_eq (rec : Frame → St R → Action → St R) (fr : Frame) (ty v
          ((I.get s2.reg ty).foldl (deliver cfg rec ty v t.1 obs fr.depth) (s2, []))) := by
   rfl
 
-def dFilt {R : Type} (d v : Nat) (r : Reg) (s : St R) : St R :=
+def dFilt0 {R : Type} (d v : Nat) (r : Reg) (s : St R) : St R :=
   match r.filt with
   | some _ => { s with c := s.c.emit (.filt d r.rid v (r.accepts v)) }
   | none => s
+
+/-- the filter phase: the `filt` event, then the cancellation of the publish context a filter may perform -/
+def dFilt {R : Type} (d v root : Nat) (r : Reg) (s : St R) : St R :=
+  if r.filt.isSome && r.filtCancels then cancelRoot root (dFilt0 d v r s) else dFilt0 d v r s
 
 def dClaim {R : Type} (r : Reg) (s : St R) : St R :=
   if r.once then { s with c := { s.c with executed := r.rid :: s.c.executed } } else s
@@ -262,7 +266,7 @@ def dClaim {R : Type} (r : Reg) (s : St R) : St R :=
 theorem deliver_eq {R : Type} (cfg : Config) (rec : Frame → St R → Action → St R)
     (ty v root obs d : Nat) (s : St R) (claimed : List Reg) (r : Reg) :
     deliver cfg rec ty v root obs d (s, claimed) r =
-      (let s1 := dFilt d v r s
+      (let s1 := dFilt d v root r s
        if !r.accepts v then (s1, claimed)
        else if !s1.c.live root then (s1, claimed)
        else if r.once && s1.c.executed.contains r.rid then (s1, claimed)
@@ -324,11 +328,23 @@ theorem callHandler_T (h : TR rec) (r : Reg) (ty v root op d : Nat) (async : Boo
   · exact T.emitIf _ _ _ rfl
   · exact T.refl _
 
-theorem dFilt_T (d v : Nat) (r : Reg) (s : St R) : T s.c (dFilt d v r s).c := by
-  simp only [dFilt]
+theorem dFilt0_T (d v : Nat) (r : Reg) (s : St R) : T s.c (dFilt0 d v r s).c := by
+  simp only [dFilt0]
   split
   · exact T.emit _ _ rfl
   · exact T.refl _
+
+theorem cancelRoot_T (root : Nat) (s : St R) : T s.c (cancelRoot root s).c := by
+  simp only [cancelRoot]
+  split
+  · exact T.refl _
+  · exact T.same rfl rfl rfl
+
+theorem dFilt_T (d v root : Nat) (r : Reg) (s : St R) : T s.c (dFilt d v root r s).c := by
+  simp only [dFilt]
+  split
+  · exact T.trans (dFilt0_T d v r s) (cancelRoot_T root _)
+  · exact dFilt0_T d v r s
 
 theorem dClaim_T (r : Reg) (s : St R) : T s.c (dClaim r s).c := by
   simp only [dClaim]
@@ -341,8 +357,8 @@ theorem deliver_T (h : TR rec) (ty v root obs d : Nat) (acc : St R × List Reg) 
   obtain ⟨s, claimed⟩ := acc
   rw [deliver_eq]
   simp only
-  refine T.trans (dFilt_T d v r s) ?_
-  generalize dFilt d v r s = s1
+  refine T.trans (dFilt_T d v root r s) ?_
+  generalize dFilt d v root r s = s1
   split
   · exact T.refl _
   split
@@ -649,11 +665,24 @@ theorem callHandler_RS (h : RR rec) (r : Reg) (ty v root op d : Nat) (async : Bo
 
 def PR (x y : St R × List Reg) : Prop := RS x.1 y.1 ∧ x.2 = y.2
 
-theorem dFilt_RS (d v : Nat) (r : Reg) {s1 s2 : St R} (hs : RS s1 s2) :
-    RS (dFilt d v r s1) (dFilt d v r s2) := by
+theorem dFilt0_RS (d v : Nat) (r : Reg) {s1 s2 : St R} (hs : RS s1 s2) :
+    RS (dFilt0 d v r s1) (dFilt0 d v r s2) := by
   obtain ⟨r1, c1⟩ := s1; obtain ⟨r2, c2⟩ := s2
-  simp only [dFilt]
+  simp only [dFilt0]
   split <;> rs_brute
+
+theorem cancelRoot_RS (root : Nat) {s1 s2 : St R} (hs : RS s1 s2) :
+    RS (cancelRoot root s1) (cancelRoot root s2) := by
+  obtain ⟨r1, c1⟩ := s1; obtain ⟨r2, c2⟩ := s2
+  simp only [cancelRoot]
+  split <;> rs_brute
+
+theorem dFilt_RS (d v root : Nat) (r : Reg) {s1 s2 : St R} (hs : RS s1 s2) :
+    RS (dFilt d v root r s1) (dFilt d v root r s2) := by
+  simp only [dFilt]
+  split
+  · exact cancelRoot_RS root (dFilt0_RS d v r hs)
+  · exact dFilt0_RS d v r hs
 
 theorem dClaim_RS (r : Reg) {s1 s2 : St R} (hs : RS s1 s2) : RS (dClaim r s1) (dClaim r s2) := by
   obtain ⟨r1, c1⟩ := s1; obtain ⟨r2, c2⟩ := s2
@@ -676,9 +705,9 @@ theorem deliver_RS (h : RR rec) (ty v root obs d : Nat) (r : Reg) {a1 a2 : St R 
   subst hcl
   rw [deliver_eq, deliver_eq]
   simp only
-  have h1 := dFilt_RS d v r hs
-  generalize dFilt d v r s1 = t1 at h1
-  generalize dFilt d v r s2 = t2 at h1
+  have h1 := dFilt_RS d v root r hs
+  generalize dFilt d v root r s1 = t1 at h1
+  generalize dFilt d v root r s2 = t2 at h1
   rw [h1.live root, h1.executed]
   refine ite_pair PR (fun _ => ⟨h1, rfl⟩) (fun _ => ?_)
   refine ite_pair PR (fun _ => ⟨h1, rfl⟩) (fun _ => ?_)
